@@ -21,6 +21,10 @@ def one(n):
     try:
         repo = os.path.join(tmp, 'repo')
         shutil.copytree('/repo', repo, ignore=shutil.ignore_patterns('target', '.git'))
+        if os.path.exists(os.path.join(d, 'base.diff')):
+            b = subprocess.run(['git', 'apply', '--whitespace=nowarn', os.path.join(d, 'base.diff')], cwd=repo, capture_output=True, text=True)
+            if b.returncode != 0:
+                return n, None, 'base: ' + b.stderr[-300:]
         a = subprocess.run(['git', 'apply', '--whitespace=nowarn', os.path.join(d, 'patch.diff')], cwd=repo, capture_output=True, text=True)
         if a.returncode != 0:
             return n, None, a.stderr[-300:]
@@ -45,7 +49,7 @@ for n, fired, err in results:
     meta_p = os.path.join(d, 'meta.json')
     meta = json.load(open(meta_p)) if os.path.exists(meta_p) else {}
     meta['detected_by'] = fired
-    if kind == 'seeded':
+    if kind in ('seeded', 'seeded2'):
         target = n.split('-')[0]
         meta['target_check_fires'] = target in fired
         print('%-8s target %s: %s | fired: %s' % (n, target, 'CAUGHT' if target in fired else 'MISSED', ', '.join(sorted(fired)) or '-'))
